@@ -11,6 +11,7 @@ import (
 	"flag"
 	"fmt"
 	"os"
+	"sort"
 	"strconv"
 	"strings"
 	"time"
@@ -108,6 +109,28 @@ func main() {
 		sum := core.RunWorker(d, *tier, *seed, *w, *nw, *runs, time.Unix(*deadline, 0), core.LoadFindings(), act)
 		b, _ := json.Marshal(sum)
 		fmt.Println(string(b))
+	case "digests":
+		id := os.Args[2]
+		fs := flag.NewFlagSet("digests", flag.ExitOnError)
+		tier := fs.String("tier", "quick", "")
+		seed := fs.Uint64("seed", 1, "")
+		from := fs.Uint64("from", 0, "")
+		to := fs.Uint64("to", 10, "")
+		_ = fs.Parse(os.Args[3:])
+		core.Digests(core.Drivers[id], *tier, *seed, *from, *to)
+	case "selftest-determinism":
+		fs := flag.NewFlagSet("selftest", flag.ExitOnError)
+		n := fs.Uint64("n", 40, "run indexes per property")
+		seed := fs.Uint64("seed", envSeed(), "")
+		_ = fs.Parse(os.Args[2:])
+		ids := fs.Args()
+		if len(ids) == 0 {
+			for id := range core.Drivers {
+				ids = append(ids, id)
+			}
+			sort.Strings(ids)
+		}
+		os.Exit(core.SelfTestDeterminism(ids, *n, *seed))
 	case "replay":
 		if len(os.Args) < 3 {
 			usage()
